@@ -15,11 +15,13 @@ META = {
 
 def configs(tier):
     cs = []
-    def add(C, D, b, c, form, upd, split, mp, reseed=0, iface=0, twice=0, **kw):
-        cs.append(Config('c%dd%d-b%dc%d-%s-upd%d%s%s%s%s' % (C, D, b, c, 'log' if form else 'reg', upd, '-split%d' % split if split else '', '-reseed%d' % reseed if reseed else '', '-capi' if iface else '', '-twice' if twice else ''), 'C15', [C, D, b, c, form, upd, split, reseed, iface, twice], max_paths=mp, strategy='tree', solver_timeout_ms=10000, **kw))
+    def add(C, D, b, c, form, upd, split, mp, reseed=0, iface=0, twice=0, zero=0, **kw):
+        cs.append(Config('c%dd%d-b%dc%d-%s-upd%d%s%s%s%s%s' % (C, D, b, c, 'log' if form else 'reg', upd, '-split%d' % split if split else '', '-reseed%d' % reseed if reseed else '', '-capi' if iface else '', '-twice' if twice else '', '-zero' if zero else ''), 'C15', [C, D, b, c, form, upd, split, reseed, iface, twice, zero], max_paths=mp, strategy='tree', solver_timeout_ms=10000, **kw))
     if tier == 'quick':
+        add(3, 1, 0, 2, 0, 0, 0, 40, zero=1); add(3, 1, 1, 2, 0, 1, 1, 40, zero=1); add(2, 2, 0, 3, 0, 2, 0, 30, zero=1)   # density exactly zero on half of the points (concrete zeros: 0/0 ratios)
         add(2, 1, 0, 1, 0, 0, 0, 120); add(2, 1, 0, 1, 1, 0, 0, 60); add(3, 1, 0, 1, 0, 0, 0, 60); add(2, 2, 1, 1, 0, 3, 0, 40); add(2, 1, 0, 2, 0, 0, 1, 40); add(3, 1, 0, 2, 0, 2, 1, 40); add(3, 1, 1, 2, 1, 2, 1, 30); add(3, 1, 1, 2, 0, 2, 1, 30, twice=1); add(3, 1, 0, 1, 1, 2, 0, 30, twice=1); add(2, 1, 0, 2, 0, 1, 1, 20, twice=1); add(2, 1, 0, 2, 1, 1, 0, 40, iface=1); add(2, 1, 0, 1, 0, 3, 0, 30, iface=1); add(2, 1, 1, 1, 1, 0, 1, 30, iface=1); add(2, 1, 0, 2, 0, 0, 1, 30, reseed=2); add(2, 1, 0, 2, 1, 0, 1, 30, reseed=1); add(2, 1, 0, 1, 0, 1, 0, 30); add(2, 1, 0, 1, 1, 2, 0, 30)
     else:
+        for upd in (0, 1, 2, 3): add(3, 1, 0, 3, 0, upd, 1, 300, zero=1); add(2, 2, 1, 2, 0, upd, 0, 200, zero=1, iface=1)
         add(2, 1, 0, 1, 0, 0, 0, 4000); add(2, 1, 0, 1, 1, 0, 0, 4000)
         add(3, 1, 0, 1, 0, 0, 0, 1500); add(3, 2, 0, 1, 1, 0, 0, 800)
         for form in (0, 1):
